@@ -844,7 +844,16 @@ class Fxp():
         if original_vdtype != complex and not np.issubdtype(original_vdtype, np.complexfloating):
             # val_dtype determination
             _n_word_max_ = min(_n_word_max, 64)
-            if np.max(val) >= 2**_n_word_max_ or np.min(val) < -2**_n_word_max_ or self.n_word >= _n_word_max_:
+            _int_limit = 2**(_n_word_max_ - 1)
+            if self.n_word >= _n_word_max_:
+                val_dtype = object
+                val = val.astype(object)
+            elif val.dtype.kind in 'iuO' and (int(np.max(val)) * conv_factor >= _int_limit or int(np.min(val)) * conv_factor < -_int_limit):
+                # integer value(s) whose scaled value doesn't fit in 64 bits: calculate with python integers (exact),
+                # the result is stored in the native type because it fits in the word after overflow action
+                val_dtype = np.int64 if self.signed else np.uint64
+                val = val.astype(object)
+            elif np.max(val) >= 2**_n_word_max_ or np.min(val) < -2**_n_word_max_:
                 val_dtype = object
                 val = val.astype(object)
             else:
@@ -855,12 +864,12 @@ class Fxp():
             new_val = self._round(val * conv_factor , method=self.config.rounding)
             new_val = self._overflow_action(new_val, val_min, val_max)
 
+            if val_dtype == object or new_val.dtype == object:
+                # convert each element to int
+                new_val = np.array(list(map(int, new_val.flatten())), dtype=object).reshape(new_val.shape)
+
             # convert to array of val_dtype
             new_val = new_val.astype(val_dtype)
-
-            if val_dtype == object:       
-                # convert each element to int
-                new_val = np.array(list(map(int, new_val.flatten()))).reshape(new_val.shape).astype(val_dtype)
             
             if index is not None:
                 self.val[index] = new_val
